@@ -61,7 +61,7 @@ UnderArray(T, t) == T.par[t] # 0 /\ T.kind[T.par[t]] = "array"
 \* concatenation and the int cast are computable by TLC.  Chars maps the literals of the model.
 Chars(s) == CASE s = "" -> <<>> [] s = "1" -> <<"1">> [] s = "2" -> <<"2">> [] s = "x" -> <<"x">> [] s = " y " -> <<" ", "y", " ">>
             [] s = "a" -> <<"a">> [] s = "b" -> <<"b">> [] s = "7" -> <<"7">> [] s = "1.5" -> <<"1", ".", "5">>
-            [] s = "true" -> <<"t", "r", "u", "e">>
+            [] s = "true" -> <<"t", "r", "u", "e">> [] s = "false" -> <<"f", "a", "l", "s", "e">>
 RECURSIVE TrimL(_), TrimR(_)
 TrimL(s) == IF s # <<>> /\ s[1] = " " THEN TrimL(Tail(s)) ELSE s
 TrimR(s) == IF s # <<>> /\ s[Len(s)] = " " THEN TrimR(SubSeq(s, 1, Len(s) - 1)) ELSE s
@@ -128,9 +128,19 @@ Stored(T, t, v) == IF v = NilV THEN (IF T.keep[t] THEN <<"null">> ELSE <<>>) ELS
 
 \* the text a value contributes as a concat argument: absent => zero value ""
 ArgText(v) == IF v[1] \in {"s", "i"} THEN Tail(v) ELSE <<>>
-FuncKinds == {"concat", "coalesce", "upper"}
+\* "sig": a user function registered by an Extension with the typed signature sig(string, int64, float64, bool): every
+\* argument arrives at its own position; an absent one arrives as the zero value of *its* parameter.  The function
+\* prints what it received, every argument followed by "#".
+FuncKinds == {"concat", "coalesce", "upper", "sig"}
+SigTy == <<"none", "int", "float", "boolean">>
+SigZero(pos) == CASE pos = 1 -> <<>> [] pos = 4 -> Chars("false") [] OTHER -> <<"0">>
+\* the text argument number pos contributes to a call of kind k
+ArgTextAt(k, pos, v) ==
+  IF k # "sig" THEN ArgText(v)
+  ELSE IF v = NilV THEN SigZero(pos)
+  ELSE IF v[1] = "b" THEN Chars(v[2]) ELSE Tail(v)
 \* how a function of kind k combines the text of its next argument with the combination of the rest
-Combine(k, a, rest) == IF k = "coalesce" THEN (IF a # <<>> THEN a ELSE rest) ELSE a \o rest
+Combine(k, a, rest) == IF k = "coalesce" THEN (IF a # <<>> THEN a ELSE rest) ELSE IF k = "sig" THEN a \o <<"#">> \o rest ELSE a \o rest
 UpperCh(c) == CASE c = "x" -> "X" [] c = "y" -> "Y" [] c = "a" -> "A" [] c = "b" -> "B" [] OTHER -> c
 Finish(k, s) == IF k = "upper" THEN [i \in 1..Len(s) |-> UpperCh(s[i])] ELSE s
 
@@ -208,7 +218,7 @@ RefEval(D, T, t, n0) ==
                           rest == Args(k + 1)
                       IN IF v = FailV \/ rest = FailV THEN FailV
                          ELSE IF v[1] \in {"{", "[", "null"} THEN FailV       \* ill-typed argument: not generated
-                         ELSE <<"ok">> \o Combine(T.kind[t], ArgText(v), Tail(rest))
+                         ELSE <<"ok">> \o Combine(T.kind[t], ArgTextAt(T.kind[t], k, v), Tail(rest))
                all == Args(1)
            IN IF all = FailV THEN FailV ELSE NormStr(T, t, Finish(T.kind[t], Tail(all)))
 
@@ -324,7 +334,7 @@ ImplEval(D, T, t, n0, cache, KeyHasAnchor, SortByFqdn) ==
                       IN IF r.v = FailV THEN r
                          ELSE IF r.v[1] \in {"{", "[", "null"} THEN [v |-> FailV, c |-> r.c]
                          ELSE LET rest == Args(k + 1, r.c)
-                              IN IF rest.v = FailV THEN rest ELSE [v |-> <<"ok">> \o Combine(T.kind[t], ArgText(r.v), Tail(rest.v)), c |-> rest.c]
+                              IN IF rest.v = FailV THEN rest ELSE [v |-> <<"ok">> \o Combine(T.kind[t], ArgTextAt(T.kind[t], k, r.v), Tail(rest.v)), c |-> rest.c]
                all == Args(1, cache)
            IN IF all.v = FailV THEN all ELSE save([v |-> NormStr(T, t, Finish(T.kind[t], Tail(all.v))), c |-> all.c])
 
